@@ -26,6 +26,7 @@ import (
 	"github.com/renbou/grpcbridge/grpcadapter"
 	"github.com/renbou/grpcbridge/reflection"
 	"github.com/renbou/grpcbridge/routing"
+	"github.com/renbou/grpcbridge/verifx"
 	"github.com/renbou/grpcbridge/webbridge"
 	"google.golang.org/grpc"
 	"google.golang.org/grpc/codes"
@@ -65,6 +66,13 @@ func (Area) Gen(r *rand.Rand, tier string, emit func(string)) {
 	// concurrent transcoded requests whose Content-Type / Accept are registered media types written non-canonically
 	// (parameters, other case): one StandardTranscoder is shared by all requests of a bridge (seeded C18-m7)
 	emit("race bindmime")
+	// added with the happens-before / published-immutable deepening: a resolver woken by its TIMER while ResolveNow callers
+	// run the once-closure of the current generation (the channel field may only be re-armed after a receive from it);
+	// MANY UpdateDesc of one target against RouteHTTP readers of the same HTTP method (the published static table and the
+	// route slices it holds must never be reused for the next version); concurrent requests whose responses are lists / maps
+	emit("race resolvertimer")
+	emit("race updroutes")
+	emit("race listmap")
 	n := 2
 	if tier == "thorough" {
 		n = 12
@@ -161,6 +169,12 @@ func (Area) Exec(input string) string {
 		resolvers()
 	case "bindmime":
 		bindMime()
+	case "resolvertimer":
+		resolverTimer()
+	case "updroutes":
+		updRoutes()
+	case "listmap":
+		listMap()
 	case "grpcwebfail":
 		grpcWebFail()
 	case "poolopts":
@@ -185,6 +199,13 @@ func (Area) Exec(input string) string {
 		return "BAD scenario"
 	}
 	reps := newReports()
+	panicMu.Lock()
+	if len(panics) > 0 {
+		sort.Strings(panics)
+		reps = append(reps, "panic in scenario goroutine: "+strings.Join(panics, ","))
+		panics = nil
+	}
+	panicMu.Unlock()
 	if len(reps) == 0 {
 		return "OK nt b=" + f[1]
 	}
@@ -444,6 +465,199 @@ func resolvers() {
 	time.Sleep(100 * time.Millisecond)
 	ra.Close()
 	rbb.Close()
+}
+
+var (
+	panicMu sync.Mutex
+	panics  []string
+)
+
+// safely runs f and turns a panic of the code under test (e.g. close of a closed channel) into a reported finding
+// instead of killing the harness process.
+func safely(f func()) {
+	defer func() {
+		if p := recover(); p != nil {
+			panicMu.Lock()
+			msg := strings.Fields(fmt.Sprint(p))
+			if len(msg) > 6 {
+				msg = msg[:6]
+			}
+			seen := false
+			for _, x := range panics {
+				seen = seen || x == strings.Join(msg, "_")
+			}
+			if !seen {
+				panics = append(panics, strings.Join(msg, "_"))
+			}
+			panicMu.Unlock()
+		}
+	}()
+	f()
+}
+
+// downConn refuses every stream at once: a poll fails fast and the poller is back in its select within microseconds.
+type downConn struct{}
+
+func (downConn) Close() {}
+func (downConn) Stream(ctx context.Context, method string) (grpcadapter.ClientStream, error) {
+	return nil, status.Error(codes.Unavailable, "down")
+}
+
+// resolverTimer: resolvers polling every millisecond (timer wake-ups) against concurrent ResolveNow callers.
+func resolverTimer() {
+	// The FIRST ResolveNow of every resolver is held between its atomic load and the call of the loaded closure (a sleep
+	// orders nothing) until the poll timer (PollInterval is clamped to >= 1s) has woken the poller: the closure of the
+	// generation that was current at the load must still be the current one, because a timer wake-up never re-arms.
+	var first sync.Map
+	verifx.SetHook(func(name string, args ...string) {
+		if name == "resolver.resolveNow.loaded" && len(args) == 1 {
+			if _, seen := first.LoadOrStore(args[0], true); !seen {
+				time.Sleep(1250 * time.Millisecond)
+			}
+		}
+	})
+	defer verifx.SetHook(nil)
+	rb := reflection.NewResolverBuilder(fakePool{downConn{}}, reflection.ResolverOpts{PollInterval: time.Second, ReqTimeout: 50 * time.Millisecond})
+	var rs []*reflection.Resolver
+	for _, n := range []string{"a", "b", "c"} {
+		rs = append(rs, rb.Build(n, nopWatcher{}))
+	}
+	var wg sync.WaitGroup
+	for _, r := range rs {
+		wg.Add(1)
+		go func(r *reflection.Resolver) {
+			defer wg.Done()
+			safely(r.ResolveNow) // straddles the timer wake-up
+			var cg sync.WaitGroup
+			for g := 0; g < 3; g++ {
+				cg.Add(1)
+				go func(g int) {
+					defer cg.Done()
+					for i := 0; i < 40; i++ {
+						safely(r.ResolveNow)
+						if (i+g)%3 == 0 {
+							time.Sleep(200 * time.Microsecond)
+						}
+					}
+				}(g)
+			}
+			cg.Wait()
+		}(r)
+	}
+	wg.Wait()
+	time.Sleep(20 * time.Millisecond)
+	for _, r := range rs {
+		r.Close()
+	}
+}
+
+// updRoutes: one pattern router, two targets with bindings on the same HTTP methods; each target's description is replaced
+// several hundred times (different numbers of bindings per version) while readers route requests of those methods.
+func updRoutes() {
+	pr := routing.NewPatternRouter(fakePool{fakeConn{}}, routing.PatternRouterOpts{})
+	mk := func(name string, k int) *bridgedesc.Target {
+		d := unaryTarget(name)
+		m := &d.Services[0].Methods[0]
+		m.Bindings = nil
+		// consecutive versions have the same NUMBER of routes every other time (in-place refresh of a published slice would
+		// be legal length-wise) but never the same patterns
+		for j := 0; j <= (k/2)%4; j++ {
+			m.Bindings = append(m.Bindings, bridgedesc.Binding{HTTPMethod: "POST", Pattern: fmt.Sprintf("/%s/v%d/{_=*}", name, (j+k)%4), RequestBodyPath: "*"},
+				bridgedesc.Binding{HTTPMethod: "GET", Pattern: fmt.Sprintf("/%s/g%d", name, (j+k)%4)})
+		}
+		return d
+	}
+	var wg, rg sync.WaitGroup
+	stop := make(chan struct{})
+	for _, name := range []string{"a", "b"} {
+		w, err := pr.Watch(name)
+		if err != nil {
+			return
+		}
+		defer w.Close()
+		wg.Add(1)
+		go func(name string) {
+			defer wg.Done()
+			for k := 0; k < 300; k++ {
+				w.UpdateDesc(mk(name, k))
+			}
+		}(name)
+	}
+	for g := 0; g < 4; g++ {
+		rg.Add(1)
+		go func(g int) {
+			defer rg.Done()
+			for i := 0; ; i++ {
+				select {
+				case <-stop:
+					return
+				default:
+				}
+				name := []string{"a", "b"}[(g+i)%2]
+				_, _, _ = pr.RouteHTTP(httptest.NewRequest("POST", fmt.Sprintf("/%s/v%d/x", name, i%4), strings.NewReader("{}")))
+				_, _, _ = pr.RouteHTTP(httptest.NewRequest("GET", fmt.Sprintf("/%s/g%d", name, i%4), nil))
+			}
+		}(g)
+	}
+	wg.Wait()
+	close(stop)
+	rg.Wait()
+}
+
+// listMap: concurrent transcoded requests whose request and response are a Struct holding lists and maps (one marshaler /
+// transcoder shared by all requests of the bridge).
+type structRouter struct{ t *bridgedesc.Target }
+
+func (r structRouter) RouteHTTP(*http.Request) (grpcadapter.ClientConn, routing.HTTPRoute, error) {
+	svc := &r.t.Services[0]
+	return structConn{}, routing.HTTPRoute{Target: r.t, Service: svc, Method: &svc.Methods[0],
+		Binding: &bridgedesc.Binding{HTTPMethod: "POST", Pattern: "/s", RequestBodyPath: "*"}}, nil
+}
+
+type structConn struct{}
+
+func (structConn) Close() {}
+func (structConn) Stream(ctx context.Context, method string) (grpcadapter.ClientStream, error) {
+	return &structStream{}, nil
+}
+
+var structResponse, _ = structpb.NewStruct(map[string]any{"l": []any{1.0, "two", []any{true, nil}, map[string]any{"k": "v"}},
+	"m": map[string]any{"a": 1.0, "b": []any{"x", "y"}, "c": map[string]any{"d": map[string]any{}}}})
+
+type structStream struct {
+	fakeStream
+}
+
+func (s *structStream) Recv(ctx context.Context, m proto.Message) error {
+	s.mu.Lock()
+	defer s.mu.Unlock()
+	s.recvd++
+	if s.recvd == 1 {
+		proto.Merge(m, structResponse)
+		return nil
+	}
+	return io.EOF
+}
+
+func listMap() {
+	t := unaryTarget("t")
+	t.Services[0].Methods[0].Input = bridgedesc.ConcreteMessage[structpb.Struct]()
+	t.Services[0].Methods[0].Output = bridgedesc.ConcreteMessage[structpb.Struct]()
+	hb := webbridge.NewTranscodedHTTPBridge(structRouter{t}, webbridge.TranscodedHTTPBridgeOpts{})
+	var wg sync.WaitGroup
+	for g := 0; g < 4; g++ {
+		wg.Add(1)
+		go func(g int) {
+			defer wg.Done()
+			for i := 0; i < 60; i++ {
+				body := fmt.Sprintf(`{"l":[%d,"s",[1,2,{"k":[]}]],"m":{"a":{"b":[%d]},"c":[{"d":1},{"e":[null]}]}}`, g, i)
+				req := httptest.NewRequest("POST", "/s", strings.NewReader(body))
+				req.Header.Set("Content-Type", "application/json")
+				hb.ServeHTTP(httptest.NewRecorder(), req)
+			}
+		}(g)
+	}
+	wg.Wait()
 }
 
 type nopWatcher struct{}
